@@ -96,7 +96,7 @@ func h15SGR(s string) (fg, bg int, ok bool) {
 			if i >= len(s) {
 				return fg, bg, false
 			}
-			if s[i] == ';' {
+			if s[i] == ';' || s[i] == ':' { // ':' separates sub-parameters (ITU T.416 form, e.g. foot's 48:5:n)
 				i++
 				continue
 			}
@@ -159,6 +159,7 @@ func H15_color() {
 	if ebg < 0 || ebg >= ti.Colors {
 		ebg = -1
 	}
+	vsymNote("tcolor", s)
 	dfg, dbg, ok := h15SGR(s)
 	vsymAssert(ok, "TColor output is a sequence of well-formed SGR controls")
 	vsymAssert(dfg == efg, "TColor selects the requested foreground (bright folded on 8-colour terminals, out-of-range elided)")
